@@ -561,9 +561,8 @@ int main()
       }
       catch (const std::logic_error&) { out = "!L"; }
       catch (const std::exception&) { out = "!X"; }
-      std::cout << out << '\n';
+      std::cout << out << '\n' << std::flush;      // flushed per op: a crash must not lose the lines already answered
    }
-   std::cout.flush();
    cx.unit.reset();
    cx.lex.reset();
 }
